@@ -176,6 +176,15 @@ func init() {
 		for i := 0; i < *n; i++ {
 			lines = append(lines, fmt.Sprintf("S %d", i))
 			if *mix {
+				if i%12 == 5 {
+					// the engine's own background goroutine (EnableBackgroundMerge) next to the clients
+					o := EngineGenOpts{FixedIO: 0}
+					c := genCfg(r, o, h)
+					c.fsize = r.Pick(4096, 40960)
+					lines = append(lines, "E dir db", fmt.Sprintf("E concbg %s %d", c, 1300+r.Intn(400)))
+					h["conc_background_merge"]++
+					continue
+				}
 				lines = append(lines, GenMixScript(r, h)...)
 				continue
 			}
